@@ -358,6 +358,9 @@ class Ev:
             if t[0] == "int" and e["f"] == 0:
                 # checked op folded to a constant
                 return t
+            sp = self.split_component(t, e["f"])
+            if sp is not None:
+                return self.norm(sp)
             return self.norm(("field", t, name))
         if "dc" in e:
             return ("variant", t, e.get("name", str(e["dc"])))
@@ -578,7 +581,12 @@ class Ev:
                 return args[0]
         # x.map(|v| f(v)) on Option/Result: the payload is the closure body applied to the payload of x (wrapper and payload are one term here)
         if len(args) == 2 and strip_generics(path) in ("core::option::Option::map", "core::result::Result::map") and isinstance(args[1], tuple) and args[1] and args[1][0] == "closure":
-            r = self.apply_closure(args[1], [args[0]])
+            r = self.apply_closure(args[1], [self.payload_term(args[0])])
+            if r is not None:
+                return r
+        # x.and_then(|v| f(v)) on Option/Result: f applied to the payload (wrapper and payload are one term here)
+        if len(args) == 2 and strip_generics(path) in ("core::option::Option::and_then", "core::result::Result::and_then") and isinstance(args[1], tuple) and args[1] and args[1][0] == "closure":
+            r = self.apply_closure(args[1], [self.payload_term(args[0])])
             if r is not None:
                 return r
         # x.map(path::to::function): the function applied to the payload
@@ -599,6 +607,41 @@ class Ev:
         if f.get("trait") in ("core::ops::index::Index", "core::ops::index::IndexMut") and len(args) == 2:
             return ("index", args[0], args[1])
         return ("call", path, args, (self.fn.path, b))
+
+    RANGE = "core::ops::range::Range::Range"
+    RANGE_FROM = "core::ops::range::RangeFrom::RangeFrom"
+
+    def split_component(self, t, f):
+        """Component f of `s.split_at(n)` / `s.split_at_checked(n)?` / `s.split_first_chunk::<N>()?` as a sub-slice of s:
+        .0 = s[..n], .1 = s[n..] (nested ranges composed: s[a..][..n] = s[a..a+n], s[a..][n..] = s[a+n..])."""
+        x = strip_payload(t)
+        if not (isinstance(x, tuple) and x and x[0] == "call" and x[2] and f in (0, 1)):
+            return None
+        nm = strip_generics(x[1]).split("::")[-1]
+        n = None
+        if nm in ("split_at", "split_at_checked") and len(x[2]) == 2:
+            n = x[2][1]
+        elif nm == "split_first_chunk" and len(x) > 3 and x[3] and x[3][0] in self.prog.fns:
+            ct = self.prog.fns[x[3][0]].blocks[x[3][1]].term
+            for sub in ct["fn"].get("substs", []):
+                if str(sub).strip().isdigit():
+                    n = ("int", int(str(sub).strip()))
+            if n is None:
+                import re as _re
+                m = _re.search(r"\[u8; (\d+)\]", str(self.prog.fns[x[3][0]].locals[ct["dst"]["l"]]["ty"])) if ct.get("dst") else None
+                n = ("int", int(m.group(1))) if m else None
+        if n is None:
+            return None
+        s0 = x[2][0]
+        return compose_index(s0, ("agg", self.RANGE, (("int", 0), n), ("start", "end"))) if f == 0 else compose_index(s0, ("agg", self.RANGE_FROM, (n,), ("start",)))
+
+    def payload_term(self, t):
+        """What a closure given to map / and_then receives: the payload of t (for `s.get(range)` that is the sub-slice)."""
+        x = strip_payload(t)
+        if isinstance(x, tuple) and x and x[0] == "call" and strip_generics(x[1]).endswith("slice::get") and len(x[2]) == 2 and x[2][1][0] == "agg" \
+                and "ops::range::Range" in str(x[2][1][1]):
+            return compose_index(x[2][0], x[2][1])
+        return t
 
     def known_variant(self, a, depth=0):
         """The variant a Result-like value certainly has: the result of a crate function that provably never returns Err is Ok."""
@@ -839,6 +882,22 @@ class Ev:
                 if ap and ap[0] == root and ap[1][:len(fields)] == tuple(fields):
                     out.append((b, t["fn"].get("path", t["fn"].get("orig", "<indirect>")), i, ap))
         return out
+
+
+def compose_index(base, rng):
+    """`base[rng]` with a range over a base that is itself `b[a..]` folded into one range over b."""
+    if isinstance(base, tuple) and base and base[0] == "index" and isinstance(base[2], tuple) and base[2][0] == "agg" and str(base[2][1]).endswith("RangeFrom::RangeFrom"):
+        a = base[2][2][0]
+        lab = str(rng[1])
+
+        def add(x, y):
+            r = fold_bin("Add", x, y)
+            return r if r is not None else ("bin", "Add", x, y)
+        if lab.endswith("Range::Range"):
+            return ("index", base[1], ("agg", rng[1], (add(a, rng[2][0]), add(a, rng[2][1])), rng[3] if len(rng) > 3 else None))
+        if lab.endswith("RangeFrom::RangeFrom"):
+            return ("index", base[1], ("agg", rng[1], (add(a, rng[2][0]),), rng[3] if len(rng) > 3 else None))
+    return ("index", base, rng)
 
 
 def must_pass(fn, target_blocks, from_block=0, to_blocks=None, live=None):
